@@ -6,7 +6,7 @@
    digest of at most 64 bytes (Multihash<64>). SHA-256 is abstract: `sha` is any byte string
    of length 32. *)
 From Coq Require Import List NArith Bool.
-From V.gen Require Consts.
+From V.gen Require Consts PeerIdSites.
 From V.common Require Import Varint.
 From V.C18 Require Import Model Proofs.
 Import ListNotations.
@@ -146,6 +146,136 @@ Theorem C18_varint_minimal :
 Proof. exact decode_u64_shape. Qed.
 Print Assumptions C18_varint_minimal.
 
+(* ====================================================================================== *)
+(* Round 2                                                                                 *)
+(* ====================================================================================== *)
+
+(* ---- one derivation ---- *)
+(* Every way the crate turns a key into a peer id is `derive` applied to the canonical protobuf
+   encoding of the key: PeerId::from_public_key, the two From impls, PublicKey::to_peer_id,
+   ed25519::PublicKey::to_peer_id, the local ids (Litep2p::new, TransportManager, Identify),
+   RemotePublicKey::to_peer_id, and through it the Noise identity check and the TLS certificate
+   parser (QUIC), which are the same function of (decoder, hash, received bytes, signature ok).
+   `H` is SHA-256, `dec` is RemotePublicKey::from_protobuf_encoding — both arbitrary. *)
+Theorem C18_single_derivation :
+  forall (H : hash) (dec : decoder),
+  (forall k,
+     from_impl H k = from_public_key H k /\ publickey_to_peer_id H k = from_public_key H k /\
+     ed25519_to_peer_id H k = from_public_key H k /\ local_peer_id H k = from_public_key H k /\
+     identify_local_peer_id H k = from_public_key H k /\
+     from_public_key H k = derive H (key_encoding (KEd k))) /\
+  (forall k, remote_to_peer_id H k = derive H (key_encoding k)) /\
+  (forall identity verified,
+     tls_identity dec H identity verified = noise_identity dec H identity verified) /\
+  (forall identity k, dec identity = Some k ->
+     noise_identity dec H identity true = Some (derive H (key_encoding k)) /\
+     noise_identity dec H identity false = None) /\
+  (forall identity v, dec identity = None -> noise_identity dec H identity v = None).
+Proof. exact single_derivation. Qed.
+Print Assumptions C18_single_derivation.
+
+(* The model's table of derivation sites (each line names its model function) is the list of
+   sites extracted from the Rust source by tools/gen_c18_sites.py on every check: a new place
+   that makes a peer id from key material, or a site that changes what it calls, breaks this. *)
+Theorem C18_derivation_sites :
+  derivation_sites = V.gen.PeerIdSites.sites.
+Proof. exact sites_match. Qed.
+Print Assumptions C18_derivation_sites.
+
+(* the id of a remote depends on the decoded key only, never on the bytes it was decoded from *)
+Theorem C18_identity_encoding_irrelevant :
+  forall dec H b1 b2 v, dec b1 = dec b2 -> noise_identity dec H b1 v = noise_identity dec H b2 v.
+Proof. exact identity_encoding_irrelevant. Qed.
+Print Assumptions C18_identity_encoding_irrelevant.
+
+Theorem C18_ed25519_id :
+  forall H k, length k = 32%nat -> from_public_key H k = mkPid 0 ([8; 1; 18; 32] ++ k).
+Proof. exact ed25519_id. Qed.
+Print Assumptions C18_ed25519_id.
+
+(* RSA (cargo feature `rsa`): SHA-256 multihash of 08 00 12 len SubjectPublicKeyInfo, as in the
+   reference; every RSA key of at least 19 PKCS#1 bytes is past the inline limit *)
+Theorem C18_rsa_id :
+  forall H pk, 19 <= len pk ->
+    remote_to_peer_id H (KRsa pk) = mkPid 18 (H ([8; 0; 18] ++ encode (len (spki pk)) ++ spki pk)).
+Proof. exact rsa_id. Qed.
+Print Assumptions C18_rsa_id.
+
+Theorem C18_is_public_key_own :
+  forall H k, length k = 32%nat -> is_public_key H (from_public_key H k) k = Some true.
+Proof. exact is_public_key_own. Qed.
+Print Assumptions C18_is_public_key_own.
+
+(* is_public_key also recognises the (legacy) SHA-256 id of an Ed25519 key *)
+Theorem C18_is_public_key_true :
+  forall H p k, is_public_key H p k = Some true <->
+    p = mkPid 0 (encode_ed25519 k) \/ p = mkPid 18 (H (encode_ed25519 k)).
+Proof. exact is_public_key_true. Qed.
+Print Assumptions C18_is_public_key_true.
+
+Theorem C18_random_valid :
+  forall r, length r = 32%nat -> bytes_ok r = true -> valid (random_pid r) = true.
+Proof. exact random_valid. Qed.
+Print Assumptions C18_random_valid.
+
+(* ---- Eq / Ord / Hash against the renderings ---- *)
+(* two valid ids are equal iff their bytes, their base58 texts, their /p2p components are equal,
+   iff the derived PartialEq says so, iff the derived Ord says Equal (Hash hashes code and
+   digest, i.e. the value) *)
+Theorem C18_eq_iff_bytes :
+  forall p q, valid p = true -> valid q = true ->
+  (p = q <-> to_bytes p = to_bytes q) /\ (p = q <-> to_text p = to_text q) /\
+  (p = q <-> to_component p = to_component q) /\
+  (pid_eqb p q = true <-> p = q) /\ (pid_cmp p q = Eq <-> p = q).
+Proof. exact eq_iff_renderings. Qed.
+Print Assumptions C18_eq_iff_bytes.
+
+(* the derived Ord (code, size, zero-padded 64-byte array) is the lexicographic order of the bytes *)
+Theorem C18_ord_is_bytes_order :
+  forall p q, valid p = true -> valid q = true -> pid_cmp p q = list_cmp (to_bytes p) (to_bytes q).
+Proof. exact cmp_is_bytes_order. Qed.
+Print Assumptions C18_ord_is_bytes_order.
+
+(* ---- serde ---- *)
+Theorem C18_serde_roundtrip :
+  forall p, valid p = true ->
+  de_hr (ser_hr p) = Some p /\ de_bin (ser_bin p) = Some p /\ of_json (json_of p) = Some p.
+Proof. exact serde_roundtrip. Qed.
+Print Assumptions C18_serde_roundtrip.
+
+Theorem C18_serde_sound :
+  (forall t p, de_hr t = Some p -> valid p = true) /\ (forall b p, de_bin b = Some p -> valid p = true).
+Proof. exact serde_sound. Qed.
+Print Assumptions C18_serde_sound.
+
+(* base58 texts consist of alphabet characters: nothing to escape in JSON, no '/' *)
+Theorem C18_text_alphabet :
+  forall p c, In c (to_text p) -> In c alphabet /\ json_plain c = true /\ c <> SLASH.
+Proof. exact text_alphabet. Qed.
+Print Assumptions C18_text_alphabet.
+
+(* ---- the textual multiaddress ---- *)
+Theorem C18_addr_text_roundtrip :
+  forall p, valid p = true ->
+  of_addr_text (to_addr_text p) = Some p /\
+  of_addr_text (SLASH :: NAME_IPFS ++ SLASH :: to_text p) = Some p.
+Proof. exact addr_text_roundtrip. Qed.
+Print Assumptions C18_addr_text_roundtrip.
+
+Theorem C18_addr_text_valid :
+  forall t p, of_addr_text t = Some p -> valid p = true.
+Proof. exact of_addr_text_valid. Qed.
+Print Assumptions C18_addr_text_valid.
+
+(* "/p2p/<s>" is the rendering of the id it parses to (same 10-byte-varint proviso as for bytes;
+   the alias "/ipfs/<s>" and longer addresses are other spellings by design) *)
+Theorem C18_addr_text_canonical_partial :
+  forall s p, ~ In SLASH s -> of_addr_text (SLASH :: NAME_P2P ++ SLASH :: s) = Some p ->
+  (forall b, b58_decode s = Some b -> (length b <= length (digest p) + 10)%nat) ->
+  SLASH :: NAME_P2P ++ SLASH :: s = to_addr_text p.
+Proof. exact of_addr_text_canonical. Qed.
+Print Assumptions C18_addr_text_canonical_partial.
+
 (* non-vacuity: concrete ids of both kinds go round *)
 Example C18_example_identity :
   of_bytes (to_bytes (mkPid 0 (encode_ed25519 (repeat 7 32)))) = Some (mkPid 0 (encode_ed25519 (repeat 7 32)))
@@ -153,3 +283,16 @@ Example C18_example_identity :
   /\ to_text (mkPid 0 [1; 2; 3]) = [49; 53; 84; 74; 85; 114]
   /\ of_bytes [22; 1; 5] = None.
 Proof. vm_compute. repeat split. Qed.
+
+(* non-vacuity, round 2: "/p2p/73kJ" and "/ipfs/73kJ" are the id 12 01 07, its JSON form is "73kJ" in
+   quotes, a relayed address ending in p2p-circuit has no final id, the Ord of two concrete ids *)
+Example C18_example_round2 :
+  of_addr_text [47; 112; 50; 112; 47; 55; 51; 107; 74] = Some (mkPid 18 [7])
+  /\ of_addr_text [47; 105; 112; 102; 115; 47; 55; 51; 107; 74] = Some (mkPid 18 [7])
+  /\ of_addr_text ([47; 112; 50; 112; 47; 55; 51; 107; 74] ++ SLASH :: NAME_CIRCUIT) = None
+  /\ json_of (mkPid 18 [7]) = [34; 55; 51; 107; 74; 34]
+  /\ of_json [34; 55; 51; 107; 74; 34] = Some (mkPid 18 [7])
+  /\ pid_cmp (mkPid 0 [7]) (mkPid 0 [7; 0]) = Lt
+  /\ derivation_sites <> []
+  /\ len (key_encoding (KRsa (repeat 1 270))) = 299.
+Proof. vm_compute. repeat split; discriminate. Qed.
